@@ -7,6 +7,8 @@ pub fn run(id: &str, tier: &str, seed: u64) -> Result<String, String> {
         "bgzf-deflate-bound" => bgzf_deflate_bound(tier, seed),
         n if n.starts_with("try-") => codec_try(&n[4..]),
         "cram-codecs-roundtrip" => cram_codecs_roundtrip(tier, seed, None),
+        "cram-decoders-hostile" => cram_decoders_hostile(tier, seed),
+        n if n.starts_with("dec-") => { let (d, h) = n[4..].split_once(':').ok_or("dec-<decoder>:<hex>")?; let x: Vec<u8> = (0..h.len() / 2).map(|i| u8::from_str_radix(&h[2 * i..2 * i + 2], 16).unwrap()).collect(); let r = run_decoder(d, &x); Ok(format!("\"result\":{:?}", r.map(|v| v.len()).map_err(|e| e.to_string()))) }
         n if n.starts_with("cram-codec-") => cram_codecs_roundtrip(tier, seed, Some(&n[11..])),
         _ => Err(format!("unknown bounded check {id}")),
     }
@@ -121,4 +123,114 @@ fn codec_try(arg: &str) -> Result<String, String> {
         _ => return Err("variant".into()),
     };
     match d { Ok(y) if y == x => Ok(format!("\"cases\":1,\"enc_len\":{}", e.len())), Ok(_) => Err("mismatch".into()), Err(er) => Err(format!("decode error {er}; encoding = {:?}", &e[..e.len().min(80)])) }
+}
+
+// ---------------------------------------------------------------------------------------------------------------------
+// C15, "arbitrary bytes fed to each CRAM codec decoder": SAMPLED (never counted as proved).  Each decoder runs in a child
+// process under a 4 GiB address-space limit and a wall-clock limit; inputs are its own encodings of a few payloads with
+// every single-byte substitution from a small set, every truncation, and PRNG strings.  A panic, an abort (allocation
+// failure), or a case that does not finish is a failure; Ok or Err is fine.
+pub const DECODERS: [&str; 6] = ["rans4x8", "ransnx16", "aac", "tok3", "fqzcomp", "ransnx16-len0"];
+fn hex(x: &[u8]) -> String { x.iter().map(|b| format!("{b:02x}")).collect() }
+fn decoder_seeds(dec: &str) -> Vec<Vec<u8>> {
+    use noodles_cram::codecs::{rans_4x8, rans_nx16, aac, verif_hooks as vh};
+    let payloads: Vec<Vec<u8>> = vec![b"".to_vec(), b"a".to_vec(), b"abracadabra".to_vec(), vec![7u8; 40], (0..=255u8).collect(), prng(11, 300).iter().map(|b| b % 5).collect()];
+    let mut v = Vec::new();
+    match dec {
+        "rans4x8" => for p in &payloads { for o in [rans_4x8::Order::Zero, rans_4x8::Order::One] { if let Ok(e) = rans_4x8::verif_hooks::encode(o, p) { v.push(e); } } },
+        "ransnx16" | "ransnx16-len0" => for p in &payloads { for fl in [rans_nx16::Flags::empty(), rans_nx16::Flags::ORDER, rans_nx16::Flags::N32, rans_nx16::Flags::RLE, rans_nx16::Flags::PACK, rans_nx16::Flags::CAT, rans_nx16::Flags::STRIPE] {
+            if let Ok(Ok(e)) = std::panic::catch_unwind(|| rans_nx16::verif_hooks::encode(fl, p)) { v.push(e); } } },
+        "aac" => for p in &payloads { for fl in [aac::Flags::empty(), aac::Flags::ORDER, aac::Flags::RLE, aac::Flags::PACK, aac::Flags::CAT, aac::Flags::STRIPE] {
+            if let Ok(Ok(e)) = std::panic::catch_unwind(|| aac::verif_hooks::encode(fl, p)) { v.push(e); } } },
+        "tok3" => for names in [&b"r1\0r2\0r3\0"[..], &b"read.0001/1\0read.0001/2\0read.0002/1\0"[..], &b"a\0"[..], &b"\0"[..], &b"x9\0x10\0x010\0"[..]] {
+            if let Ok(Ok(e)) = std::panic::catch_unwind(|| vh::name_tokenizer_encode(names)) { v.push(e); } },
+        "fqzcomp" => for (lens, q) in [(vec![4usize], b"IIII".to_vec()), (vec![3, 3], b"ABCABC".to_vec()), (vec![10], vec![b'5'; 10]), (vec![1], b"!".to_vec())] {
+            if let Ok(Ok(e)) = std::panic::catch_unwind(move || vh::fqzcomp_encode(&lens, &q)) { v.push(e); } },
+        _ => {}
+    }
+    v
+}
+fn decoder_inputs(dec: &str, tier: &str, seed: u64) -> Vec<Vec<u8>> {
+    let mut v: Vec<Vec<u8>> = vec![vec![]];
+    for b in 0..=255u8 { v.push(vec![b]); }
+    let per = if tier == "thorough" { 400 } else { 60 };
+    for s in decoder_seeds(dec) {
+        v.push(s.clone());
+        for k in 0..s.len() { v.push(s[..k].to_vec()); }
+        let n = s.len().min(per);
+        for i in 0..n { for f in [0x00u8, 0xff, s[i] ^ 0x01, s[i] ^ 0x80, s[i].wrapping_add(1), 0x7f] { if f != s[i] { let mut m = s.clone(); m[i] = f; v.push(m); } } }
+    }
+    let r = if tier == "thorough" { 3000 } else { 300 };
+    let _ = seed;   // inputs are a fixed function of the tier: what is found on the unchanged tree is reproducible and listed in known_findings.jsonl
+    for i in 0..r { v.push(prng(0xd0d0 + i as u64, 1 + (i * 7) % 120)); }
+    v
+}
+fn run_decoder(dec: &str, x: &[u8]) -> std::io::Result<Vec<u8>> {
+    use noodles_cram::codecs::{rans_4x8, rans_nx16, aac, verif_hooks as vh};
+    match dec {
+        "rans4x8" => rans_4x8::verif_hooks::decode(x),
+        "ransnx16" => rans_nx16::verif_hooks::decode(x, 64),
+        "ransnx16-len0" => rans_nx16::verif_hooks::decode(x, 0),
+        "aac" => aac::verif_hooks::decode(x, 64),
+        "tok3" => vh::name_tokenizer_decode(x),
+        "fqzcomp" => vh::fqzcomp_decode(x),
+        _ => Ok(Vec::new()),
+    }
+}
+/// child side: prints `FAIL <kind>\t<hex>` per failing case and `DONE <cases>` at the end; the case being run is kept in <cur_path>
+pub fn decoder_child(dec: &str, tier: &str, seed: u64, cur_path: &str, start: usize) {
+    static LOC: std::sync::Mutex<String> = std::sync::Mutex::new(String::new());
+    std::panic::set_hook(Box::new(|info| { if let Some(l) = info.location() { *LOC.lock().unwrap() = format!("{}:{}", l.file().rsplit("noodles-cram/src/").next().unwrap_or(l.file()), l.line()); } }));
+    let inputs = decoder_inputs(dec, tier, seed);
+    let mut n = 0u64;
+    for (idx, x) in inputs.iter().enumerate().skip(start) {
+        let _ = std::fs::write(cur_path, format!("{idx} {}", hex(x)));
+        let t = std::time::Instant::now();
+        let r = std::panic::catch_unwind(|| run_decoder(dec, x).map(|v| v.len()));
+        n += 1;
+        if r.is_err() { println!("FAIL PANICS at {}\t{}", LOC.lock().unwrap(), hex(x)); }
+        else if t.elapsed().as_secs() >= 5 { println!("FAIL takes {} s\t{}", t.elapsed().as_secs(), hex(x)); }
+    }
+    println!("DONE {n}");
+}
+fn cram_decoders_hostile(tier: &str, seed: u64) -> Result<String, String> {
+    use std::collections::BTreeMap;
+    let exe = std::env::current_exe().map_err(|e| e.to_string())?;
+    let mut cases = 0u64;
+    // failure kind (panic site / abort / hang) -> (entry decoders that reach it, shortest (decoder, input))
+    let mut fails: BTreeMap<String, (std::collections::BTreeSet<String>, String, String)> = BTreeMap::new();
+    for dec in DECODERS {
+        let cur = std::env::temp_dir().join(format!("verif-native-cur-{}-{}", std::process::id(), dec));
+        let limit = if tier == "thorough" { 900 } else { 200 };
+        let mut start = 0usize;
+        let mut restarts = 0;
+        loop {
+            let out = std::process::Command::new("sh").arg("-c")
+                .arg(format!("ulimit -v 4194304; exec timeout {limit} {} child-dec-{dec} --tier {tier} --seed {seed} --cur {} --start {start} 2>/dev/null", exe.display(), cur.display()))
+                .output().map_err(|e| e.to_string())?;
+            let text = String::from_utf8_lossy(&out.stdout).to_string();
+            let mut done = false;
+            let mut note = |kind: String, h: &str| {
+                let kind = match kind.find("library/core/") { Some(i) => format!("PANICS at {}", &kind[i..]), None => kind };
+                let e = fails.entry(kind).or_insert_with(|| (Default::default(), dec.to_string(), h.to_string()));
+                e.0.insert(dec.to_string());
+                if h.len() < e.2.len() { e.1 = dec.to_string(); e.2 = h.to_string(); }
+            };
+            for l in text.lines() {
+                if let Some(r) = l.strip_prefix("FAIL ") { if let Some((k, h)) = r.split_once('\t') { note(k.to_string(), h); } }
+                else if let Some(r) = l.strip_prefix("DONE ") { done = true; cases += r.trim().parse::<u64>().unwrap_or(0); }
+            }
+            if done { break; }
+            // the child died on one input: record it and carry on after it
+            let c = std::fs::read_to_string(&cur).unwrap_or_default();
+            let (idx, h) = c.split_once(' ').unwrap_or(("", ""));
+            let kind = match out.status.code() { Some(124) => format!("does not finish within {limit} s"), Some(c) => format!("process exits with code {c}"), None => "ABORTS the process (allocation failure / signal)".to_string() };
+            note(kind, h);
+            restarts += 1;
+            match idx.parse::<usize>() { Ok(k) if restarts < 200 => { cases += (k + 1 - start) as u64; start = k + 1; } _ => break }
+        }
+        let _ = std::fs::remove_file(&cur);
+    }
+    if fails.is_empty() { Ok(format!("\"cases\":{cases}")) }
+    else { Err(format!("FAILURES\n{}", fails.iter().map(|(k, (ds, d, h))| format!("cram codec decoders: {k} on arbitrary bytes; reached through {}; shortest such input found: {d} {} bytes {}", ds.iter().cloned().collect::<Vec<_>>().join(","), h.len() / 2, if h.len() > 200 { format!("{}...", &h[..200]) } else { h.clone() })).collect::<Vec<_>>().join("\n"))) }
 }
